@@ -11,6 +11,7 @@ FNV_INIT, FNV_PRIME = 33554467, 0x01000193
 ALNUM = b"abcdefghijklmnopqrstuvwxyzABCDEFGHIJKLMNOPQRSTUVWXYZ0123456789"
 ALPHA = ALNUM[:52]
 ADD, REMOVE, SET, SEARCH, DOSEARCH, GETID, WRITE, LOAD, RESET, UNLOAD, ATTACH, ATTACH_HDR, BATTERY, BUCKETS = 10, 11, 12, 13, 14, 15, 20, 21, 22, 23, 25, 26, 30, 31
+BBS_RELOAD = 27
 
 
 def pad(b):
@@ -47,7 +48,7 @@ def op_line(o):
         return "%d %d %s" % (k, o[1], toks(pad(o[2])))
     if k in (REMOVE, GETID):
         return "%d %d" % (k, o[1])
-    if k in (SEARCH, DOSEARCH):
+    if k in (SEARCH, DOSEARCH, BBS_RELOAD):
         return "%d %s" % (k, toks(pad(o[1])))
     if k in (WRITE, BATTERY):
         return ("%d " % k + " ".join(toks(pad(i)) for i in o[1])).strip()
@@ -400,6 +401,30 @@ def main():
             if ml != vf.run_impl(impl, "C04", [case_line(cur)])[0]:
                 rep["expected"] = ml
         c.violation(key, text + "  [history: %s]" % rep["history"][2:], rep)
+    # ---------------------------------------------------------------- reload through bbs.ReloadUHash (sysop only): implementation only, differential
+    # the same history three ways: reload asked by SYSOP, by a plain user, and issued directly with cache.LoadUHash
+    tbl = [b"SYSOP", b"alice"] + (fams[0][:4] if fams else [b"Bob2"]) + [b""] * maxu
+    tbl = tbl[:maxu]
+    pre = start(tbl) + [(SET, 4, b"Zz"), (REMOVE, 2), (WRITE, [b"SYSOP", b"alice", tbl[2], b"Zz"] + tbl[4:])]
+    trio = [pre + [(BBS_RELOAD, b"SYSOP")], pre + [(BBS_RELOAD, b"alice")], pre + [(LOAD,)], pre + [(BBS_RELOAD, b"nobody")], pre + [(BBS_RELOAD, b"sysop")]]
+    to = vf.run_impl(impl, "C04", [case_line(t) for t in trio])
+    c.count(len(trio), "bbs.ReloadUHash scenarios")
+
+    def last_step(line, ops):
+        ob = parse(line, [o if o[0] != BBS_RELOAD else (LOAD,) for o in ops], maxu)
+        return ob[-1], ob[-2]
+    (s_sys, s_prev), (s_usr, u_prev), (s_dir, _), (s_nob, n_prev), (s_low, l_prev) = (last_step(l, t) for l, t in zip(to, trio))
+    if s_sys[:2] != (0, 0) or s_sys[3:] != s_dir[3:]:
+        c.violation("bbs-reload-sysop", "bbs.ReloadUHash(SYSOP) returns %s and leaves an index different from the one cache.LoadUHash builds" % (s_sys[:2],), {"cases": [case_line(trio[0]), case_line(trio[2])]})
+    for nm, (a, b) in (("alice", (s_usr, u_prev)), ("nobody", (s_nob, n_prev))):
+        if a[0] != 3 or a[3:] != b[3:]:
+            c.violation("bbs-reload-non-sysop", "bbs.ReloadUHash(%s) (not a sysop) returns status %d and %s the index" % (nm, a[0], "changes" if a[3:] != b[3:] else "keeps"), {"cases": [case_line(trio[1])]})
+    if s_low[3:] != (s_dir[3:] if s_low[0] == 0 else l_prev[3:]):
+        c.violation("bbs-reload-case", "bbs.ReloadUHash(sysop) returns status %d and leaves an index that is neither the reloaded nor the previous one" % s_low[0], {"cases": [case_line(trio[4])]})
+    if judge(trio[2], to[2], maxu, hdr) is not None:
+        c.violation("bbs-reload-baseline", "the direct reload of the scenario is itself judged wrong: %s" % (judge(trio[2], to[2], maxu, hdr),), {"cases": [case_line(trio[2])]})
+    c.cov["bbs_reload"] = {"sysop": list(s_sys[:2]), "plain_user": list(s_usr[:2]), "unknown_user": list(s_nob[:2]), "sysop_lower_case": list(s_low[:2])}
+
     lens = {}
     for ops, line in zip(cases, io):
         ob = parse(line, ops, maxu)
